@@ -18,7 +18,7 @@ THEOREMS = ["C03_stamp_sender", "C03_stamp_clean", "C03_stamp_intact", "C03_forg
             "C03_sender_partial", "C03_every_delivery", "C03_sender_refuted", "C03_placeholder_is_no_name",
             "C03_unique", "C03_names_exact", "C03_name_form_injective", "C03_no_fault_below_bound", "C03_second_hello_refused",
             "C03_registry_only_hello", "C03_resolve_sound", "C03_departed_never_again", "C03_colon_request_refused", "C03_ex_no_squatting",
-            "C03_release_only_live", "C03_field_position_independent", "C03_relay_wellformed", "C03_relay_bytes", "C03_relay_bytes_unique",
+            "C03_release_only_live", "C03_relayed_message_received", "C03_field_position_independent", "C03_relay_wellformed", "C03_relay_bytes", "C03_relay_bytes_unique",
             "C03_minted_name_valid", "C03_mint_matches_c", "C03_constants_match_c", "C03_ex_hold_release", "C03_ex_hold_fail", "C03_ex_relay_bytes",
             "C03_ex_hypotheses_satisfiable", "C03_ex_names", "C03_ex_forwarded", "C03_ex_placeholder", "C03_ex_f13"]
 
